@@ -271,6 +271,8 @@ func checkC05(c *Ctx) {
 	crossScenarioKeys(c, "R05i", "go")
 	r.Rule("R05h", "codec collectors visit nested declarations unconditionally", 14)
 	collectorRecursion(c, "R05h")
+	r.Rule("R05q", "a scratch map an emitted codec function serialises per child is fresh for each child (shared with C04/R04v): a second flattened child is decoded from its own keys only", 1)
+	scratchMapsPerChild(c, "R05q")
 	r.Rule("R05j", "codec emitters are called on every successful path of generateFile (not behind the no-services return)", 2)
 	codecEmittersUnconditional(c, "R05j")
 	r.Rule("R05l", "flattened discriminated oneof: every arm of the emitted decoder sets the oneof unconditionally (corpus, both plugins)", 2)
